@@ -372,8 +372,9 @@ def gen_statements(env, quick):
     inside_s = [(lo_x, lo_y), (hi_x - sw + 1, hi_y - sh + 1), (hi_x - sw + 2, lo_y), (lo_x, hi_y - sh + 2)]
     inside_v = [(lo_x, lo_y), (lo_x + 1, lo_y), (lo_x, lo_y + 1), (lo_x - 1, lo_y),
                 (hi_x - vw + 1, hi_y - vh + 1)]
-    for nm, pts in (('S', (D4 if quick else D12) + inside_s), ('V', (D4 if quick else D12) + inside_v),
-                    ('B', D4 + inside_v[:2])):
+    for nm, pts in (('S', (D4 if quick else D12) + inside_s),
+                    ('V', (D4 + inside_v[:3]) if quick else (D12 + inside_v)),
+                    ('B', (D4[:2] + inside_v[:1]) if quick else (D4 + inside_v[:2]))):
         for (x, y) in pts:
             for vi, verb in enumerate(verbs):
                 for bit in (0, 1):
@@ -431,9 +432,8 @@ def _kind_key(kind, where, env):
     if kind.startswith('view-'):
         # the configuration's own viewport is irrelevant for VIEW itself
         return '%s/%s' % (kind, 'other-page-changed' if where == 'other-page' else 'outside-new-viewport')
-    return '%s/%s/view=%s/win=%s' % (
-        kind, 'other-page-changed' if where == 'other-page' else 'outside-viewport-' + where,
-        env.view, env.win)
+    return '%s/%s/view=%s' % (
+        kind, 'other-page-changed' if where == 'other-page' else 'outside-viewport-' + where, env.view)
 
 
 def run_case(env, part, kind, stmt, allowed=None, restore_view=False):
@@ -446,7 +446,7 @@ def run_case(env, part, kind, stmt, allowed=None, restore_view=False):
     part.traces += 1
     if r.exc is not None:
         if isinstance(r.exc, G.Watchdog):
-            part.violation('%s/hang/view=%s/win=%s' % (kind, env.view, env.win),
+            part.violation('%s/hang/view=%s' % (kind, env.view),
                            '%s on %s SCREEN %d did not finish in 60 s' % (stmt, g.adapter, g.nr), case)
             env.dead = True
             return r, False, []
@@ -574,7 +574,8 @@ def _text_case(part, adapter, width, apage, stmt, control):
                        '%r in %s text %d: %r' % (stmt, adapter, width, r.exc), case)
         return
     part.outcome('text:err%s' % r.err)
-    part.classes.add('text/%s/%s/w%d/p%d' % (kind, adapter, width, apage))
+    part.classes.add('text/%s/p%d' % (kind, apage))
+    part.classes.add('text/%s/w%d' % (adapter, width))
     if r.err != 5:
         part.violation('text/%s/not-illegal-function-call' % kind,
                        '%r in %s text mode width %d: error %r, expected Illegal function call (5); output %r' % (
